@@ -330,6 +330,7 @@ func runC15(p *core.Prog, r *core.Report) {
 		r.Check(okAbsent, "C15.R1", "bitmap/key-term", "a key term evaluates to the key's bitmap, or the empty set when the key is absent", "lookup in the bitmaps map not found", p.Pos(bm.Pos()))
 	})
 
+	r.Guard("C15.R1", "key-term/same-key", "same lookup key", func() { checkKeyTermSameKey(p, r, "C15.R1") })
 	// ------------------------------------------------------------------ R2
 	checkSharedBitmaps(p, r, "C15.R2")
 
